@@ -19,7 +19,7 @@ cd "$V" || exit 2
 run_one() {  # name diff expect out miri(0/1)
   local name="$1" d="$2" expect="$3" out="$4" miri="$5"
   git -C "$R" apply "$d" 2>/dev/null || (cd "$R" && patch -p1 --fuzz=3 -s < "$d") || { echo -e "$name\tPATCH-DOES-NOT-APPLY" >> "$out"; git -C "$R" checkout -- .; return; }
-  local tests; tests=$(cd "$R" && cargo test --workspace --no-fail-fast --offline 2>&1 | grep -c "^test result: ok. 35 passed")
+  local tests; tests=$(cd "$R" && cargo test --workspace --no-fail-fast --offline 2>&1 | grep "^test result" | awk '/: ok\./ {ok++} /FAILED/ {bad++} END {if (bad>0) print "FAILED"; else if (ok>=2) print "2"; else print ok+0}')
   local run fired="" errs=""
   if [ -z "$expect" ]; then run="C03 C11 C12 C13 C14 C15 C16 C18"; else run="$expect"; fi
   if [ -n "${REGR_ONLY:-}" ]; then  # re-run after a change to the machinery of some properties only
